@@ -16,6 +16,12 @@ T = {
  "C12-a": ("C12", "Debug for CharacterString truncates the rendering at byte 64", "a character-string longer than 64 bytes with a multi-byte character (or U+FFFD rendering) across byte 64", ["C12"]),
  "C13-a": ("C13", "build_reply looks up SRV-target address records with subdomains", "an SRV answer plus an authoritative address record strictly below its target; first run MISSED it, generator biased to the SRV neighbourhood and to registered names, ImplAdditionals added to MC_Store", ["C13"]),
  "C14-a": ("C14", "responder_loop propagates the header-peek error with ? (thread exits)", "a datagram shorter than 4 bytes on the real socket; not visible in the pure pipeline: first run MISSED it, the sampled socket run got before/after probes with a control responder", ["C14"]),
+ "C15-a": ("C15", "ip_addr_to_resource_record matches on addr.to_canonical()", "an instance holding an IPv4-mapped IPv6 address (::ffff:a.b.c.d): advertised as an A record; first run MISSED it (address domain had no v4-mapped address), domain extended and IPv6 addresses now projected with all 16 bytes", ["C15"]),
+ "C16-a": ("C16", "Name equality made ASCII-case-insensitive while Hash stays case-sensitive", "two names differing only in letter case", ["C16"]),
+ "C17-a": ("C17", "Label::is_valid_label checks the last-character rule on data[1..]", "a label that is exactly '_'", ["C17"]),
+ "C18-a": ("C18", "match_qtype counts MINFO in the MAILB group", "a MINFO record against a MAILB question", ["C18"]),
+ "C19-a": ("C19", "String::try_from(TXT) decodes each character-string as UTF-8 separately", "text longer than 254 bytes with a multi-byte character straddling a multiple of 254", ["C19"]),
+ "C20-a": ("C20", "add_cached_resource keeps the later of the old and new expiry", "a cached record received again with a shorter TTL / cache-flush, then queried after the shorter TTL; first runs MISSED it, expiry histories now work on a 4-record catalogue and prefer re-receiving and querying already cached records", ["C20"]),
 }
 for name, (prop, change, needs, caught) in T.items():
     d = f"/verif/seeded/{name}"
